@@ -12,7 +12,9 @@ HARNESSES = [
     dict(name="sizes.table", src="C13/sizes.c", unwind=16, unwindset={"strcmp.0": 7, "memcmp.0": 7}, timeout=300, mem_gb=4,
          extra_srcs=["lib/crc16.c", "lib/null_decoder.c", "lib/lz5_decoder.c", "lib/lzs_decoder.c", "lib/lh1_decoder.c", "lib/lh5_decoder.c", "lib/lh6_decoder.c", "lib/lh7_decoder.c", "lib/lhx_decoder.c", "lib/lk7_decoder.c", "lib/pm1_decoder.c", "lib/pm2_decoder.c"],
          units=["lib/lha_decoder.c:decoders[],lha_decoder_for_name", "the 12 decoder type objects"], bounds="concrete table; one symbolic 5-byte name"),
-    SKIP, it(len0=0, ret=24, timeout=120), it(len0=12, ret=1, timeout=120), it(len0=3, ret=0, timeout=120), l1ext(13), walk(16), extend(3), pos(3), rsm(2, 4, timeout=600),
+    SKIP, dict(name="skip.seek", src="C16/skip.c", entry="harness_seek", unwind=6, units=["lib/lha_input_stream.c:file_source_skip"], timeout=120, mem_gb=4,
+         bounds="any position/length, any skip distance 0..2^32-1 on a seekable stream", stubs=["FILE: (position, length, seekable, eof) model"]),
+    it(len0=0, ret=24, timeout=120), it(len0=12, ret=1, timeout=120), it(len0=3, ret=0, timeout=120), l1ext(13), walk(16), extend(3), pos(3), rsm(2, 4, timeout=600),
     dict(name="decread.b4", src="C09/decread.c", defines=["BUFLEN=4"], unwind=8, unwindset={"lha_decoder_read.0": 7, "lha_crc16_buf.0": 6, "verif_memcpy.0": 5}, extra_srcs=["lib/crc16.c"], optional_witnesses=True,
          units=["lib/lha_decoder.c:lha_decoder_read"], timeout=300, mem_gb=4, bounds="inductive step of the decoder read loop: arbitrary bookkeeping state, 4-byte request", stubs=["method read(): arbitrary count <= max_read"]),
 ]
